@@ -188,7 +188,44 @@ func sApp(f string, args ...string) string {
 	if len(args) == 0 {
 		return f
 	}
+	if (f == "+" || f == "-") && len(args) == 2 {
+		// constant folding of small integer literals (range indices start at -1 + 1): keeps index terms canonical
+		if a, okA := smallLit(args[0]); okA {
+			if b, okB := smallLit(args[1]); okB {
+				if f == "+" {
+					return sInt(a + b)
+				}
+				return sInt(a - b)
+			}
+		}
+		if b, okB := smallLit(args[1]); okB && b == 0 {
+			return args[0]
+		}
+	}
 	return "(" + f + " " + strings.Join(args, " ") + ")"
+}
+
+// smallLit parses "7" or "(- 7)" with |n| < 2^31.
+func smallLit(t string) (int64, bool) {
+	neg := false
+	if strings.HasPrefix(t, "(- ") && strings.HasSuffix(t, ")") && !strings.Contains(t[3:len(t)-1], " ") {
+		neg = true
+		t = t[3 : len(t)-1]
+	}
+	if len(t) == 0 || len(t) > 9 {
+		return 0, false
+	}
+	var n int64
+	for _, c := range t {
+		if c < '0' || c > '9' {
+			return 0, false
+		}
+		n = n*10 + int64(c-'0')
+	}
+	if neg {
+		n = -n
+	}
+	return n, true
 }
 func sInt(n int64) string {
 	if n < 0 {
